@@ -92,6 +92,114 @@ func Step(cpu int, op int, m int, x int) {
 	vp.Reach("end")
 }
 
+// Step2 executes two consecutive instructions (op1, then op2 at wherever op1 left the program
+// counter) and compares the state after the second one with two steps of the reference model.
+// It reaches behaviour that one step from the harness's pre-state cannot: state an interpreter
+// keeps between steps outside the fields listed in cpuenv.Pre (a repeating block move is
+// re-executed once per byte, so MVN/MVP twice is "the second iteration").
+func Step2(cpu int, op1 int, op2 int, m int, x int) {
+	pre := cpuenv.ArbitraryPre(uint8(m), uint8(x), 0)
+	pre.Interrupt = pre.Interrupt & 1
+	opAddr := uint32(pre.RK)<<16 | uint32(pre.PC)
+
+	var implMem []byte
+	if cpu == 0 {
+		implMem = cpuenv.MainMem
+	} else {
+		implMem = cpuenv.AltMem
+	}
+	vp.FillBytes("mem", implMem)
+	vp.FillBytes("mem", cpuenv.SpecMem)
+	implMem[opAddr] = uint8(op1)
+	cpuenv.SpecMem[opAddr] = uint8(op1)
+	if vp.Conformance() {
+		for i := uint16(1); i <= 3; i++ {
+			a := uint32(pre.RK)<<16 | uint32(pre.PC+i)
+			v := vp.U8("operand" + string(rune('0'+i)))
+			implMem[a], cpuenv.SpecMem[a] = v, v
+		}
+	}
+
+	var a w65816.Arch
+	if cpu == 0 {
+		pre.ToMain(cpuenv.Main)
+		a = cpuenv.AbstractMain(cpuenv.Main)
+	} else {
+		pre.ToAlt(cpuenv.Alt)
+		a = cpuenv.AbstractAlt(cpuenv.Alt)
+	}
+	tags(&a, uint8(op1))
+
+	// first instruction: agreement is the obligation of Step; here it only sets the scene
+	w65816.Step(&a, cpuenv.SpecMem)
+	vp.Assume(!a.BCDInvalid && !a.E && !a.Stopped)
+	var panicked bool
+	var implPC uint32
+	if cpu == 0 {
+		c := cpuenv.Main
+		panicked = vp.Try(func() { c.Step() })
+		implPC = uint32(c.RK)<<16 | uint32(c.PC)
+	} else {
+		c := cpuenv.Alt
+		panicked = vp.Try(func() { c.Step() })
+		implPC = uint32(c.RK)<<16 | uint32(c.PC)
+	}
+	if panicked {
+		vp.Reach("first-step-failed")
+		return
+	}
+	specPC := uint32(a.K)<<16 | uint32(a.PC)
+	vp.Assume(implPC == specPC)
+	implMem[implPC] = uint8(op2)
+	cpuenv.SpecMem[specPC] = uint8(op2)
+
+	w65816.Step(&a, cpuenv.SpecMem)
+	vp.Assume(!a.BCDInvalid)
+
+	var got w65816.Arch
+	var fl [9]uint8
+	if cpu == 0 {
+		c := cpuenv.Main
+		panicked = vp.Try(func() { c.Step() })
+		got = cpuenv.AbstractMain(c)
+		fl = [9]uint8{c.N, c.V, c.M, c.X, c.D, c.I, c.Z, c.C, c.E}
+	} else {
+		c := cpuenv.Alt
+		panicked = vp.Try(func() { c.Step() })
+		got = cpuenv.AbstractAlt(c)
+		fl = [9]uint8{c.N, c.V, c.M, c.X, c.D, c.I, c.Z, c.C, c.E}
+	}
+	vp.Assert("completes-without-runtime-failure", !panicked)
+	if panicked {
+		return
+	}
+	vp.Assert("flag-bytes-stay-0-or-1", cpuenv.FlagsValid(fl[0], fl[1], fl[2], fl[3], fl[4], fl[5], fl[6], fl[7], fl[8]))
+	vp.Assert("accumulator-C", got.C == a.C)
+	vp.Assert("index-X", got.X == a.X)
+	vp.Assert("index-Y", got.Y == a.Y)
+	vp.Assert("stack-pointer", got.S == a.S)
+	vp.Assert("direct-register", got.D == a.D)
+	vp.Assert("data-bank", got.DBR == a.DBR)
+	vp.Assert("program-bank", got.K == a.K)
+	vp.Assert("program-counter", got.PC == a.PC)
+	pm := uint8(0xFF)
+	if a.Decimal {
+		pm = 0xFF &^ w65816.FV
+	}
+	vp.Assert("status-N", (got.P^a.P)&pm&w65816.FN == 0)
+	vp.Assert("status-V", (got.P^a.P)&pm&w65816.FV == 0)
+	vp.Assert("status-M", (got.P^a.P)&w65816.FM == 0)
+	vp.Assert("status-X", (got.P^a.P)&w65816.FX == 0)
+	vp.Assert("status-D", (got.P^a.P)&w65816.FD == 0)
+	vp.Assert("status-I", (got.P^a.P)&w65816.FI == 0)
+	vp.Assert("status-Z", (got.P^a.P)&w65816.FZ == 0)
+	vp.Assert("status-C", (got.P^a.P)&w65816.FC == 0)
+	vp.Assert("emulation-flag", got.E == a.E)
+	vp.Assert("stopped", got.Stopped == a.Stopped)
+	vp.Assert("memory", vp.BytesEqual(implMem, cpuenv.SpecMem))
+	vp.Reach("end")
+}
+
 // tags exposes region predicates for known findings (DESIGN Appendix D).
 func tags(a *w65816.Arch, op uint8) {
 	vp.Tag("D=1", a.P&w65816.FD != 0)
